@@ -72,11 +72,19 @@ impl KillRing {
 
     /// Yank previously killed text.
     /// Return `None` when kill-ring is empty.
+    #[cfg_attr(not(test), expect(dead_code))]
     pub fn yank(&mut self) -> Option<&String> {
+        self.yank_n(1)
+    }
+
+    /// Yank previously killed text `n` times (numeric argument): the `n` copies inserted are what
+    /// a following yank-pop has to replace.
+    /// Return `None` when kill-ring is empty.
+    pub fn yank_n(&mut self, n: usize) -> Option<&String> {
         if self.slots.is_empty() {
             None
         } else {
-            self.last_action = Action::Yank(self.slots[self.index].len());
+            self.last_action = Action::Yank(self.slots[self.index].len().saturating_mul(n));
             Some(&self.slots[self.index])
         }
     }
